@@ -80,6 +80,31 @@ theorem switch_roundtrip (s s₂ : State) (v : W)
   · rw [lax, hmsg]
   · rw [lok hok hal2 hal2d hal2s, fmx, vmx, hmx, al_sub _ _ (by decide), hal]; rfl
 
+/-- The same, with "anything may happen" spelled out: between A's switch-out and the switch back into A, any number
+    of context switches of other coroutines (issued from stacks and with `old` slots that do not contain A's saved
+    context or `&A.stack_pointer`) and any other code that does not write those 10 words may run, in any order
+    (`acts`, by induction over the list: `protected_survives`). -/
+theorem switch_roundtrip_any_interleaving (s : State) (acts : List Act) (v : W)
+    (hmx : s.mxcsr &&& mxcsrReserved = 0#32) (hal : al s.rsp = true)
+    (hd1 : s.rdi ∉ savedAddrs s.rsp)
+    (hacts : Respects (s.rdi :: savedAddrs s.rsp) acts (exec switchCode s))
+    (hnew : (runActs acts (exec switchCode s)).rsi = s.rdi) (hmsg : (runActs acts (exec switchCode s)).rdx = v)
+    (hd2 : ∀ a ∈ s.rdi :: savedAddrs s.rsp,
+      a ∉ frameAddrs (runActs acts (exec switchCode s)).rsp ∧ a ≠ (runActs acts (exec switchCode s)).rdi)
+    (hok : (runActs acts (exec switchCode s)).ok = true) (hal2 : al (runActs acts (exec switchCode s)).rsp = true)
+    (hal2d : al (runActs acts (exec switchCode s)).rdi = true)
+    (hal2s : al (runActs acts (exec switchCode s)).rsi = true) :
+    (∀ r ∈ calleeSaved, (exec switchCode (runActs acts (exec switchCode s))).get r = s.get r) ∧
+    (exec switchCode (runActs acts (exec switchCode s))).mxcsr = s.mxcsr ∧
+    userFlags (exec switchCode (runActs acts (exec switchCode s))) = userFlags s ∧
+    (exec switchCode (runActs acts (exec switchCode s))).rsp = s.rsp + 8#64 ∧
+    (exec switchCode (runActs acts (exec switchCode s))).rip = s.mem s.rsp ∧
+    (exec switchCode (runActs acts (exec switchCode s))).rax = v ∧
+    (exec switchCode (runActs acts (exec switchCode s))).ok = true := by
+  have hsurv := protected_survives (s.rdi :: savedAddrs s.rsp) acts (exec switchCode s) hacts
+  exact switch_roundtrip s (runActs acts (exec switchCode s)) v hmx hal hd1
+    (fun a ha => hsurv a (List.mem_cons_of_mem _ ha)) (hsurv s.rdi (List.mem_cons_self ..)) hnew hmsg hd2 hok hal2 hal2d hal2s
+
 /-- First entry.  `cmi_coroutine_context_init` has left `initFrame` below `stack_base` (16-aligned) and
     `stack_pointer = stack_base - 72` (tie: frame-image correspondence).  The first switch into the coroutine
     "returns" into the trampoline with the stack pointer back at `stack_base`; the trampoline's `call` then
